@@ -376,12 +376,13 @@ Proof.
         rd (if Nat.eqb (length row) w then put_cols a L row b op else b) j = rd b j) /\
      okrow row (unpack_cols L (if Nat.eqb (length row) w then put_cols a L row b op else b) op w,
                 if 0 <=? aoff L then alpha_cols L (if Nat.eqb (length row) w then put_cols a L row b op else b) op w else [])).
-  { intros row b op Hop Hopd. destruct (Nat.eqb (length row) w) eqn:Ew.
-    + apply Nat.eqb_eq in Ew. subst w.
-      destruct (put_cols_spec a L W row b op Hop Hopd) as (P1 & P2 & P3 & P4).
-      repeat split; auto. cbn [snd]. intro Hao.
+  { intros row b op Hop Hopd. unfold okrow. destruct (Nat.eqb (length row) w) eqn:Ew.
+    + apply Nat.eqb_eq in Ew.
+      pose proof (put_cols_spec a L W row b op Hop) as P. cbv zeta in P. rewrite Ew in P.
+      destruct (P Hopd) as (P1 & P2 & P3 & P4).
+      split; [exact P1|]. split; [exact P2|]. intros _. cbn [fst snd]. split; [exact P3|]. intro Hao.
       destruct (0 <=? aoff L) eqn:Ea; [auto | apply Z.leb_gt in Ea; lia].
-    + repeat split; auto; intro Hc; apply Nat.eqb_neq in Ew; contradiction. }
+    + split; [reflexivity|]. split; [reflexivity|]. intro Hc. apply Nat.eqb_neq in Ew. contradiction. }
   assert (HB : forall b1 b2 op, 0 <= op -> (forall j, op <= j < op + Z.of_nat w * psz L -> rd b1 j = rd b2 j) ->
      (unpack_cols L b1 op w, if 0 <=? aoff L then alpha_cols L b1 op w else []) =
      (unpack_cols L b2 op w, if 0 <=? aoff L then alpha_cols L b2 op w else [])).
@@ -390,10 +391,422 @@ Proof.
     + destruct (0 <=? aoff L) eqn:Ea; [|reflexivity]. apply Z.leb_le in Ea.
       apply alpha_cols_ext; [lia | assumption]. }
   destruct (G HA HB img buf ptrs Hlen Hin Hsep) as (G1 & G2 & G3).
-  rewrite E in * by assumption. cbv zeta. repeat split; auto.
-  - unfold unpack. clear - G3 Hw. induction G3; [reflexivity|]. inversion Hw; subst.
-    cbn [map]. f_equal; [|auto]. apply H; assumption.
-  - intro Hao. unfold unpack_alpha. clear - G3 Hw Hao. induction G3; [reflexivity|]. inversion Hw; subst.
-      cbn [map]. f_equal; [|auto]. destruct H as [_ H]; [assumption|]. specialize (H Hao). cbn [snd] in H.
-      destruct (0 <=? aoff L) eqn:Ea; [assumption | apply Z.leb_gt in Ea; lia].
+  rewrite E in * by assumption. cbv zeta.
+  set (out := put_rows a L img buf ptrs) in *. clearbody out. repeat split; auto.
+  - unfold unpack. clear - G3 Hw. induction G3 as [|x y l l' H G3 IH]; [reflexivity|].
+    inversion Hw as [|? ? Hx Hl]. cbn [map]. f_equal; [|apply IH; exact Hl].
+    destruct (H Hx) as [Hfst _]. exact Hfst.
+  - intro Hao. unfold unpack_alpha. clear - G3 Hw Hao. induction G3 as [|x y l l' H G3 IH]; [reflexivity|].
+    inversion Hw as [|? ? Hx Hl]. cbn [map]. f_equal; [|apply IH; exact Hl].
+    destruct (H Hx) as [_ Hsnd]. specialize (Hsnd Hao). cbn [snd] in Hsnd.
+    destruct (0 <=? aoff L) eqn:Ea; [assumption | apply Z.leb_gt in Ea; lia].
+Qed.
+
+(* row pointers of turbojpeg-mp.c: inside the buffer and pairwise disjoint when pitch >= row size *)
+Lemma ptrs_from_bounds pitch : 0 <= pitch -> forall n base,
+  Forall (fun b => base <= b <= base + (Z.of_nat n - 1) * pitch) (ptrs_from base pitch n).
+Proof.
+  intros Hp. induction n; intro base; [constructor|].
+  cbn [ptrs_from]. constructor; [nia|].
+  eapply Forall_impl; [|apply IHn]. cbv beta. intros b Hb. nia.
+Qed.
+
+Lemma ptrs_from_separated d pitch : 0 <= d <= pitch -> forall n base, separated d (ptrs_from base pitch n).
+Proof.
+  intros Hd. induction n; intro base; [exact I|].
+  cbn [ptrs_from separated]. split; [|apply IHn].
+  eapply Forall_impl; [|apply (ptrs_from_bounds pitch ltac:(lia) n (base + pitch))].
+  cbv beta. intros b Hb. lia.
+Qed.
+
+Lemma separated_snoc d l a : separated d l -> Forall (fun b => b + d <= a \/ a + d <= b) l -> separated d (l ++ [a]).
+Proof.
+  induction l as [|x t IH]; intros Hs HF; cbn [app separated] in *.
+  - split; [constructor | exact I].
+  - destruct Hs as [H1 H2]. inversion HF; subst. split.
+    + apply Forall_app. split; [assumption|]. constructor; [lia | constructor].
+    + apply IH; assumption.
+Qed.
+
+Lemma separated_rev d l : separated d l -> separated d (rev l).
+Proof.
+  induction l as [|x t IH]; intro Hs; [exact I|].
+  destruct Hs as [H1 H2]. cbn [rev]. apply separated_snoc; [apply IH; assumption|].
+  apply Forall_rev. eapply Forall_impl; [|exact H1]. cbv beta. intros; lia.
+Qed.
+
+Lemma rows_separated d pitch h bu : 0 <= d <= pitch -> separated d (rows pitch h bu).
+Proof.
+  intro Hd. destruct bu.
+  - rewrite rows_bu, rows_td. apply separated_rev. now apply ptrs_from_separated.
+  - rewrite rows_td. now apply ptrs_from_separated.
+Qed.
+
+Lemma rows_in_bounds d pitch h bu n : 0 <= d <= pitch ->
+  (Z.of_nat h - 1) * pitch + d <= Z.of_nat n -> in_bounds d n (rows pitch h bu).
+Proof.
+  intros Hd Hn. unfold in_bounds.
+  assert (H : Forall (fun op => 0 <= op /\ op + d <= Z.of_nat n) (ptrs_from 0 pitch h)).
+  { eapply Forall_impl; [|apply (ptrs_from_bounds pitch ltac:(lia) h 0)]. cbv beta. intros; lia. }
+  destruct bu.
+  - rewrite rows_bu, rows_td. now apply Forall_rev.
+  - now rewrite rows_td.
+Qed.
+
+Lemma rows_In pitch h bu op : In op (rows pitch h bu) -> exists i, 0 <= i < Z.of_nat h /\ op = i * pitch.
+Proof.
+  unfold rows. intro H. apply in_map_iff in H. destruct H as (i & Hi & Hin). apply in_seq in Hin.
+  destruct bu.
+  - exists (Z.of_nat h - Z.of_nat i - 1). split; [lia | now symmetry].
+  - exists (Z.of_nat i). split; [lia | now symmetry].
+Qed.
+
+Lemma rows_length pitch h bu : length (rows pitch h bu) = h.
+Proof. unfold rows. now rewrite map_length, seq_length. Qed.
+
+Lemma outside_rows_rows d pitch h bu j :
+  (forall i, 0 <= i < Z.of_nat h -> j < i * pitch \/ i * pitch + d <= j) -> outside_rows d (rows pitch h bu) j.
+Proof.
+  intros H op Hin. apply rows_In in Hin. destruct Hin as (i & Hi & ->). now apply H.
+Qed.
+
+(* ------------------------------------------------------------------ D. gray extraction *)
+Lemma gray_is_luma_pixel p t : c0 (ycc_of_rgb p t) = gray_of_rgb p t.
+Proof. reflexivity. Qed.
+
+Lemma rgb_gray_is_luma p L buf ptrs w :
+  rgb_gray_convert p L buf ptrs w = plane 0 (rgb_ycc_convert p L buf ptrs w).
+Proof.
+  rewrite rgb_gray_convert_unpack, rgb_ycc_convert_unpack. unfold plane.
+  rewrite map_map. apply map_ext. intro row. rewrite map_map. apply map_ext. intro t. reflexivity.
+Qed.
+
+Lemma gray_cols_ext b1 b2 : forall n ip, (forall j, ip <= j < ip + Z.of_nat n -> rd b1 j = rd b2 j) ->
+  gray_cols b1 ip n = gray_cols b2 ip n.
+Proof.
+  induction n; intros ip H; [reflexivity|]. cbn [gray_cols]. f_equal.
+  - apply H. lia.
+  - apply IHn. intros j Hj. apply H. lia.
+Qed.
+
+Lemma put_gray_cols_spec : forall ys buf op,
+  0 <= op -> op + Z.of_nat (length ys) <= Z.of_nat (length buf) ->
+  let out := put_gray_cols ys buf op in
+  length out = length buf /\
+  (forall j, 0 <= j -> (j < op \/ op + Z.of_nat (length ys) <= j) -> rd out j = rd buf j) /\
+  gray_cols out op (length ys) = ys.
+Proof.
+  induction ys as [|y r IH]; intros buf op Hop Hlen.
+  - cbn. repeat split; auto.
+  - cbn [put_gray_cols length] in *. rewrite Nat2Z.inj_succ in Hlen.
+    destruct (IH (upd buf op y) (op + 1)) as (I1 & I2 & I3); [lia | rewrite length_upd; lia |].
+    rewrite length_upd in I1. cbv zeta. repeat split.
+    + exact I1.
+    + intros j Hj Hout. rewrite I2 by lia. apply rd_upd_other; lia.
+    + cbn [gray_cols]. f_equal; [|exact I3]. rewrite I2 by lia. apply rd_upd_same. lia.
+Qed.
+
+Theorem put_gray_rows_spec w : forall img buf ptrs,
+  length img = length ptrs -> Forall (fun row => length row = w) img ->
+  in_bounds (Z.of_nat w) (length buf) ptrs -> separated (Z.of_nat w) ptrs ->
+  let out := put_gray_rows img buf ptrs in
+  length out = length buf /\
+  (forall j, 0 <= j -> outside_rows (Z.of_nat w) ptrs j -> rd out j = rd buf j) /\
+  unpack_gray out ptrs w = img.
+Proof.
+  intros img buf ptrs Hlen Hw Hin Hsep.
+  set (okrow := fun (row : list Z) (got : list Z) => length row = w -> got = row).
+  pose proof (write_rows_spec (fun row buf op => if Nat.eqb (length row) w then put_gray_cols row buf op else buf)
+                (fun buf op => gray_cols buf op w) (Z.of_nat w) okrow) as G.
+  assert (E : forall img' buf' ptrs', Forall (fun row => length row = w) img' ->
+            write_rows (fun row buf op => if Nat.eqb (length row) w then put_gray_cols row buf op else buf) img' buf' ptrs'
+            = put_gray_rows img' buf' ptrs').
+  { unfold put_gray_rows. induction img' as [|r ri IH]; intros buf' [|o rp] HF; try reflexivity.
+    inversion HF; subst. cbn [write_rows]. rewrite Nat.eqb_refl. now apply IH. }
+  assert (HA : forall row b op, 0 <= op -> op + Z.of_nat w <= Z.of_nat (length b) ->
+     length (if Nat.eqb (length row) w then put_gray_cols row b op else b) = length b /\
+     (forall j, 0 <= j -> (j < op \/ op + Z.of_nat w <= j) ->
+        rd (if Nat.eqb (length row) w then put_gray_cols row b op else b) j = rd b j) /\
+     okrow row (gray_cols (if Nat.eqb (length row) w then put_gray_cols row b op else b) op w)).
+  { intros row b op Hop Hopd. unfold okrow. destruct (Nat.eqb (length row) w) eqn:Ew.
+    + apply Nat.eqb_eq in Ew.
+      pose proof (put_gray_cols_spec row b op Hop) as P. cbv zeta in P. rewrite Ew in P.
+      destruct (P Hopd) as (P1 & P2 & P3). auto.
+    + split; [reflexivity|]. split; [reflexivity|]. intro Hc. apply Nat.eqb_neq in Ew. contradiction. }
+  assert (HB : forall b1 b2 op, 0 <= op -> (forall j, op <= j < op + Z.of_nat w -> rd b1 j = rd b2 j) ->
+     gray_cols b1 op w = gray_cols b2 op w).
+  { intros. now apply gray_cols_ext. }
+  destruct (G HA HB img buf ptrs Hlen Hin Hsep) as (G1 & G2 & G3).
+  rewrite E in * by assumption. cbv zeta.
+  set (out := put_gray_rows img buf ptrs) in *. clearbody out. repeat split; auto.
+  unfold unpack_gray. clear - G3 Hw. induction G3 as [|x y l l' H G3 IH]; [reflexivity|].
+  inversion Hw as [|? ? Hx Hl]. cbn [map]. f_equal; [|apply IH; exact Hl]. exact (H Hx).
+Qed.
+
+(* ------------------------------------------------------------------ E. merged upsampling = conversion of replicated chroma *)
+Lemma zip3_nil_r a b : zip3 a b [] = [].
+Proof. destruct a, b; reflexivity. Qed.
+
+Lemma h2v1_cols_put_cols p L : forall cbs ys crs buf op,
+  h2v1_cols p L ys cbs crs buf op =
+  put_cols (sp_max p) L (map (rgb_of_ycc_gen p true) (zip3 ys (dup2 cbs) (dup2 crs))) buf op.
+Proof.
+  induction cbs as [|cb tcb IH]; intros ys crs buf op.
+  - destruct ys; reflexivity.
+  - destruct crs as [|cr tcr].
+    + cbn [dup2]. rewrite zip3_nil_r. destruct ys; reflexivity.
+    + destruct ys as [|y0 [|y1 ty]]; [reflexivity | reflexivity |].
+      cbn [h2v1_cols dup2 zip3 map put_cols]. rewrite IH. reflexivity.
+Qed.
+
+Lemma merged_constants_agree : forall k, dfix true k = dfix false k.
+Proof.
+  intro k. unfold dfix.
+  destruct k as [|q|q]; [ | destruct q as [q|q|]; [ | destruct q as [q|q|] | ] | ]; vm_compute; reflexivity.
+Qed.
+
+Lemma rgb_of_ycc_merged p t : rgb_of_ycc_gen p true t = rgb_of_ycc p t.
+Proof.
+  unfold rgb_of_ycc, rgb_of_ycc_gen, chroma, Cr_r, Cb_b, Cr_g, Cb_g.
+  rewrite !merged_constants_agree. reflexivity.
+Qed.
+
+Lemma write_rows_ext {R1 R2} (wr1 : R1 -> list Z -> Z -> list Z) (wr2 : R2 -> list Z -> Z -> list Z) (f : R1 -> R2) :
+  (forall r buf op, wr1 r buf op = wr2 (f r) buf op) ->
+  forall img buf ptrs, write_rows wr1 img buf ptrs = write_rows wr2 (map f img) buf ptrs.
+Proof.
+  intro H. induction img as [|r ri IH]; intros buf [|op rp]; try reflexivity.
+  cbn [write_rows map]. rewrite H. apply IH.
+Qed.
+
+Theorem merged_is_plain p L ys cbs crs buf ptrs :
+  h2v1_rows p L ys cbs crs buf ptrs = ycc_rgb_convert p L (merged_image ys cbs crs) buf ptrs.
+Proof.
+  unfold h2v1_rows, ycc_rgb_convert, put_rows, merged_image. rewrite map_map.
+  apply write_rows_ext. intros r buf' op. rewrite h2v1_cols_put_cols.
+  f_equal; try (apply map_ext; intro t; apply rgb_of_ycc_merged).
+Qed.
+
+(* ------------------------------------------------------------------ top-level statements *)
+Theorem compress_any_memory p L1 L2 buf1 buf2 ptrs1 ptrs2 w :
+  unpack L1 buf1 ptrs1 w = unpack L2 buf2 ptrs2 w ->
+  rgb_ycc_convert p L1 buf1 ptrs1 w = rgb_ycc_convert p L2 buf2 ptrs2 w /\
+  rgb_gray_convert p L1 buf1 ptrs1 w = rgb_gray_convert p L2 buf2 ptrs2 w /\
+  rgb_rgb_convert L1 buf1 ptrs1 w = rgb_rgb_convert L2 buf2 ptrs2 w.
+Proof.
+  intro H.
+  rewrite (rgb_ycc_convert_unpack p L1), (rgb_ycc_convert_unpack p L2),
+          (rgb_gray_convert_unpack p L1), (rgb_gray_convert_unpack p L2), H.
+  split; [reflexivity|]. split; [reflexivity|].
+  transitivity (unpack L1 buf1 ptrs1 w); [apply rgb_rgb_convert_unpack|].
+  rewrite H. symmetry. apply rgb_rgb_convert_unpack.
+Qed.
+
+Theorem compress_layout_invariant p L1 L2 w pitch1 pitch2 rowsp1 rowsp2 bu1 bu2 :
+  WF L1 -> WF L2 -> presentation L1 w pitch1 rowsp1 -> presentation L2 w pitch2 rowsp2 ->
+  picture rowsp1 = picture rowsp2 ->
+  let b1 := mkbuf L1 rowsp1 bu1 in let b2 := mkbuf L2 rowsp2 bu2 in
+  let p1 := rows pitch1 (length rowsp1) bu1 in let p2 := rows pitch2 (length rowsp2) bu2 in
+  rgb_ycc_convert p L1 b1 p1 w = rgb_ycc_convert p L2 b2 p2 w /\
+  rgb_gray_convert p L1 b1 p1 w = rgb_gray_convert p L2 b2 p2 w /\
+  rgb_rgb_convert L1 b1 p1 w = rgb_rgb_convert L2 b2 p2 w /\
+  rgb_ycc_convert p L1 b1 p1 w = map (map (ycc_of_rgb p)) (picture rowsp1) /\
+  rgb_rgb_convert L1 b1 p1 w = picture rowsp1.
+Proof.
+  intros W1 W2 P1 P2 E. cbv zeta.
+  pose proof (unpack_mkbuf L1 w pitch1 rowsp1 bu1 W1 P1) as U1.
+  pose proof (unpack_mkbuf L2 w pitch2 rowsp2 bu2 W2 P2) as U2.
+  destruct (compress_any_memory p L1 L2 _ _ _ _ w (eq_trans U1 (eq_trans E (eq_sym U2)))) as (A & B & C).
+  split; [exact A|]. split; [exact B|]. split; [exact C|]. split.
+  - now rewrite rgb_ycc_convert_unpack, U1.
+  - transitivity (unpack L1 (mkbuf L1 rowsp1 bu1) (rows pitch1 (length rowsp1) bu1) w);
+      [apply rgb_rgb_convert_unpack | exact U1].
+Qed.
+
+Theorem decompress_rows_spec a L w h pitch bu img buf :
+  WF L -> length img = h -> Forall (fun row => length row = w) img ->
+  Z.of_nat w * psz L <= pitch ->
+  (Z.of_nat h - 1) * pitch + Z.of_nat w * psz L <= Z.of_nat (length buf) ->
+  let ptrs := rows pitch h bu in
+  let out := put_rows a L img buf ptrs in
+  unpack L out ptrs w = img /\
+  (0 <= aoff L -> unpack_alpha L out ptrs w = map (fun _ => repeat a w) img) /\
+  length out = length buf /\
+  (forall j, 0 <= j ->
+     (forall i, 0 <= i < Z.of_nat h -> j < i * pitch \/ i * pitch + Z.of_nat w * psz L <= j) ->
+     rd out j = rd buf j).
+Proof.
+  intros W Hh Hw Hpitch Hbuf. cbv zeta.
+  assert (Hd : 0 <= Z.of_nat w * psz L <= pitch) by (destruct W as ([?|?] & _); nia).
+  destruct (put_rows_spec a L w W img buf (rows pitch h bu)) as (S1 & S2 & S3 & S4); auto.
+  - now rewrite rows_length.
+  - now apply rows_in_bounds.
+  - now apply rows_separated.
+  - repeat split; auto. intros j Hj Hout. apply S2; auto. now apply outside_rows_rows.
+Qed.
+
+Theorem decompress_layout_invariant p L w h pitch bu img buf :
+  WF L -> length img = h -> Forall (fun row => length row = w) img ->
+  Z.of_nat w * psz L <= pitch ->
+  (Z.of_nat h - 1) * pitch + Z.of_nat w * psz L <= Z.of_nat (length buf) ->
+  let ptrs := rows pitch h bu in
+  let out := ycc_rgb_convert p L img buf ptrs in
+  unpack L out ptrs w = map (map (rgb_of_ycc p)) img /\
+  (0 <= aoff L -> unpack_alpha L out ptrs w = map (fun _ => repeat (sp_max p) w) img) /\
+  length out = length buf /\
+  (forall j, 0 <= j ->
+     (forall i, 0 <= i < Z.of_nat h -> j < i * pitch \/ i * pitch + Z.of_nat w * psz L <= j) ->
+     rd out j = rd buf j).
+Proof.
+  intros W Hh Hw Hpitch Hbuf. cbv zeta. unfold ycc_rgb_convert.
+  destruct (decompress_rows_spec (sp_max p) L w h pitch bu (map (map (rgb_of_ycc p)) img) buf) as (S1 & S2 & S3 & S4); auto.
+  - now rewrite map_length.
+  - apply Forall_map. eapply Forall_impl; [|exact Hw]. cbv beta. intros. now rewrite map_length.
+  - repeat split; auto. intro Hao. rewrite S2 by assumption. now rewrite map_map.
+Qed.
+
+Corollary decompress_two_layouts p L1 L2 w h pitch1 pitch2 bu1 bu2 img buf1 buf2 :
+  WF L1 -> WF L2 -> length img = h -> Forall (fun row => length row = w) img ->
+  Z.of_nat w * psz L1 <= pitch1 -> Z.of_nat w * psz L2 <= pitch2 ->
+  (Z.of_nat h - 1) * pitch1 + Z.of_nat w * psz L1 <= Z.of_nat (length buf1) ->
+  (Z.of_nat h - 1) * pitch2 + Z.of_nat w * psz L2 <= Z.of_nat (length buf2) ->
+  unpack L1 (ycc_rgb_convert p L1 img buf1 (rows pitch1 h bu1)) (rows pitch1 h bu1) w =
+  unpack L2 (ycc_rgb_convert p L2 img buf2 (rows pitch2 h bu2)) (rows pitch2 h bu2) w.
+Proof.
+  intros W1 W2 Hh Hw P1 P2 B1 B2.
+  destruct (decompress_layout_invariant p L1 w h pitch1 bu1 img buf1) as (A1 & _); auto.
+  destruct (decompress_layout_invariant p L2 w h pitch2 bu2 img buf2) as (A2 & _); auto.
+  cbv zeta in *. congruence.
+Qed.
+
+Theorem gray_is_luma :
+  (forall p L buf ptrs w, rgb_gray_convert p L buf ptrs w = plane 0 (rgb_ycc_convert p L buf ptrs w)) /\
+  (forall w h pitch bu (img : list (list px3)) buf,
+     length img = h -> Forall (fun row => length row = w) img ->
+     Z.of_nat w <= pitch -> (Z.of_nat h - 1) * pitch + Z.of_nat w <= Z.of_nat (length buf) ->
+     let ptrs := rows pitch h bu in
+     let out := grayscale_convert_d img buf ptrs in
+     unpack_gray out ptrs w = plane 0 img /\ length out = length buf /\
+     (forall j, 0 <= j -> (forall i, 0 <= i < Z.of_nat h -> j < i * pitch \/ i * pitch + Z.of_nat w <= j) ->
+        rd out j = rd buf j)).
+Proof.
+  split; [intros; apply rgb_gray_is_luma|].
+  intros w h pitch bu img buf Hh Hw Hpitch Hbuf. cbv zeta. unfold grayscale_convert_d.
+  destruct (put_gray_rows_spec w (plane 0 img) buf (rows pitch h bu)) as (S1 & S2 & S3).
+  - unfold plane. now rewrite map_length, rows_length.
+  - unfold plane. apply Forall_map. eapply Forall_impl; [|exact Hw]. cbv beta. intros. now rewrite map_length.
+  - apply rows_in_bounds; lia.
+  - apply rows_separated; lia.
+  - repeat split; auto. intros j Hj Hout. apply S2; auto. now apply outside_rows_rows.
+Qed.
+
+(* ------------------------------------------------------------------ the generated tables, in Prop form *)
+Theorem layouts_wellformed :
+  (forall cs, In cs rgb_family_cs ->
+     let L := cs_layout cs in
+     WF L /\
+     (forall tab, In tab (c_dispatch_tables ++ d_dispatch_tables ++ simd_dispatch_tables) ->
+        rgbp_of (lookup5 tab cs) = Some (layout_rgbp L)) /\
+     (forall tab, In tab d_dispatch_tables -> alpha_of (lookup5 tab cs) = Some (aoff L)) /\
+     (psz L = 4 -> 0 <= aoff L)) /\
+  (forall pf, In pf tj_rgb_family_pf ->
+     let T := pf_layout pf in let cs := znth pf2cs_tab pf in let L := cs_layout cs in
+     In cs rgb_family_cs /\ WF T /\ layout_rgbp T = layout_rgbp L /\
+     (aoff T = -1 \/ aoff T = aoff L) /\ znth cs2pf_tab cs = pf) /\
+  length rgb_family_cs = 11%nat /\ length tj_rgb_family_pf = 10%nat /\ fix_ok = true.
+Proof.
+  split; [|split; [|repeat split; vm_compute; reflexivity]].
+  - intros cs Hcs. cbv [rgb_family_cs In] in Hcs.
+    repeat (destruct Hcs as [<- | Hcs]); try contradiction;
+      (cbv zeta; split; [apply wf_layoutb_WF; vm_compute; reflexivity|];
+       split; [intros tab Ht; cbv [c_dispatch_tables d_dispatch_tables simd_dispatch_tables app In] in Ht;
+               repeat (destruct Ht as [<- | Ht]); try contradiction; vm_compute; reflexivity|];
+       split; [intros tab Ht; cbv [d_dispatch_tables In] in Ht;
+               repeat (destruct Ht as [<- | Ht]); try contradiction; vm_compute; reflexivity|];
+       vm_compute; intros; try discriminate; congruence).
+  - intros pf Hpf. cbv [tj_rgb_family_pf In] in Hpf.
+    repeat (destruct Hpf as [<- | Hpf]); try contradiction;
+      (cbv zeta; split; [vm_compute; tauto|]; split; [apply wf_layoutb_WF; vm_compute; reflexivity|];
+       split; [vm_compute; reflexivity|]; split; [vm_compute; tauto | vm_compute; reflexivity]).
+Qed.
+
+(* ------------------------------------------------------------------ F. no wrap-around in the (_JSAMPLE) cast of the forward conversion *)
+Ltac eval_ctab :=
+  unfold ctab;
+  repeat match goal with
+         | |- context [c_entry ?s] => let v := eval vm_compute in (c_entry s) in change (c_entry s) with v
+         end;
+  cbv beta iota;
+  repeat match goal with
+         | |- context [fixc ?a ?b ?c] => let v := eval vm_compute in (fixc a b c) in change (fixc a b c) with v
+         end.
+
+Lemma raw_in_range p : p = prec8 \/ p = prec12 -> forall r g b,
+  0 <= r <= sp_max p -> 0 <= g <= sp_max p -> 0 <= b <= sp_max p ->
+  0 <= y_raw p r g b <= sp_max p /\ 0 <= cb_raw p r g b <= sp_max p /\ 0 <= cr_raw p r g b <= sp_max p.
+Proof.
+  intros Hp r g b Hr Hg Hb. unfold y_raw, cb_raw, cr_raw.
+  rewrite !Z.shiftr_div_pow2 by (vm_compute; discriminate).
+  change (2 ^ c_scalebits) with 65536.
+  destruct Hp as [-> | ->]; eval_ctab;
+    change (sp_max prec8) with 255 in *; change (sp_max prec12) with 4095 in *;
+    change (Z.shiftl (sp_center prec8) c_scalebits) with 8388608;
+    change (Z.shiftl (sp_center prec12) c_scalebits) with 134217728;
+    change (2 ^ (c_scalebits - 1)) with 32768;
+    repeat split; (apply Z.div_pos; lia) || (apply Z.div_le_upper_bound; lia) || (Z.div_mod_to_equations; lia).
+Qed.
+
+Theorem forward_conversion_no_wrap p : p = prec8 \/ p = prec12 -> forall t,
+  0 <= c0 t <= sp_max p -> 0 <= c1 t <= sp_max p -> 0 <= c2 t <= sp_max p ->
+  ycc_of_rgb p t = (y_raw p (c0 t) (c1 t) (c2 t), cb_raw p (c0 t) (c1 t) (c2 t), cr_raw p (c0 t) (c1 t) (c2 t)) /\
+  0 <= c0 (ycc_of_rgb p t) <= sp_max p /\ 0 <= c1 (ycc_of_rgb p t) <= sp_max p /\ 0 <= c2 (ycc_of_rgb p t) <= sp_max p.
+Proof.
+  intros Hp t H0 H1 H2.
+  assert (Hin : forall v, 0 <= v <= sp_max p -> range_in p v = v).
+  { intros v Hv. unfold range_in. destruct Hp as [-> | ->]; cbn [sp_bits prec8 prec12 Z.eqb Pos.eqb]; [reflexivity|].
+    change c_range_mask12 with (Z.ones 12). rewrite Z.land_ones by lia. apply Z.mod_small.
+    change (sp_max prec12) with 4095 in Hv. change (2 ^ 12) with 4096. lia. }
+  assert (Hs : forall v, 0 <= v <= sp_max p -> to_sample p v = v).
+  { intros v Hv. unfold to_sample. destruct Hp as [-> | ->]; cbn [sp_bits prec8 prec12 Z.eqb Pos.eqb].
+    - apply Z.mod_small. change (sp_max prec8) with 255 in Hv. lia.
+    - change (sp_max prec12) with 4095 in Hv. rewrite Z.mod_small; lia. }
+  destruct (raw_in_range p Hp (c0 t) (c1 t) (c2 t) H0 H1 H2) as (Ry & Rcb & Rcr).
+  assert (E : ycc_of_rgb p t = (y_raw p (c0 t) (c1 t) (c2 t), cb_raw p (c0 t) (c1 t) (c2 t), cr_raw p (c0 t) (c1 t) (c2 t))).
+  { unfold ycc_of_rgb, y_of_rgb, cb_of_rgb, cr_of_rgb. rewrite !Hin by assumption. rewrite !Hs by assumption. reflexivity. }
+  split; [exact E|]. rewrite E. unfold c0, c1, c2. cbn [fst snd]. auto.
+Qed.
+
+(* ------------------------------------------------------------------ non-vacuity *)
+Definition ex_rows1 : list (list quad * list Z) :=
+  [([(255, 0, 0, 11); (0, 255, 0, 12)], []); ([(0, 0, 255, 13); (200, 100, 50, 14)], [])].
+Definition ex_rows2 : list (list quad * list Z) :=
+  [([(255, 0, 0, 91); (0, 255, 0, 92)], [1; 2; 3; 4; 5]); ([(0, 0, 255, 93); (200, 100, 50, 94)], [6; 7; 8; 9; 10])].
+
+Lemma compress_example :
+  let L1 := cs_layout JCS_EXT_RGB in let L2 := cs_layout JCS_EXT_XBGR in
+  WF L1 /\ WF L2 /\ presentation L1 2 6 ex_rows1 /\ presentation L2 2 13 ex_rows2 /\
+  picture ex_rows1 = picture ex_rows2 /\
+  mkbuf L1 ex_rows1 false = [255; 0; 0; 0; 255; 0; 0; 0; 255; 200; 100; 50] /\
+  mkbuf L2 ex_rows2 true = [93; 255; 0; 0; 94; 50; 100; 200; 6; 7; 8; 9; 10; 91; 0; 0; 255; 92; 0; 255; 0; 1; 2; 3; 4; 5] /\
+  rgb_ycc_convert prec8 L2 (mkbuf L2 ex_rows2 true) (rows 13 2 true) 2 =
+    [[(76, 85, 255); (150, 44, 21)]; [(29, 255, 107); (124, 86, 182)]].
+Proof.
+  cbv zeta. split; [apply wf_layoutb_WF; vm_compute; reflexivity|].
+  split; [apply wf_layoutb_WF; vm_compute; reflexivity|].
+  split; [repeat constructor|]. split; [repeat constructor|].
+  repeat split; vm_compute; reflexivity.
+Qed.
+
+Lemma decompress_example :
+  let L := cs_layout JCS_EXT_BGRA in
+  let img := [[(76, 85, 255); (150, 44, 21)]; [(29, 255, 107); (124, 86, 182)]] in
+  let buf := repeat 7 18 in
+  WF L /\ 0 <= aoff L /\ Forall (fun row => length row = 2%nat) img /\
+  Z.of_nat 2 * psz L <= 9 /\ (Z.of_nat 2 - 1) * 9 + Z.of_nat 2 * psz L <= Z.of_nat (length buf) /\
+  ycc_rgb_convert prec8 L img buf (rows 9 2 true) =
+    [254; 0; 0; 255; 50; 100; 200; 255; 7; 0; 0; 254; 255; 0; 255; 0; 255; 7].
+Proof.
+  cbv zeta. split; [apply wf_layoutb_WF; vm_compute; reflexivity|].
+  split; [vm_compute; discriminate|]. split; [repeat constructor|].
+  split; [vm_compute; discriminate|]. split; [vm_compute; discriminate|]. vm_compute. reflexivity.
 Qed.
